@@ -17,23 +17,24 @@ import (
 
 // PSpecJ is a query parameter of the modelled fragment, in the encoding of the Lean driver.
 type PSpecJ struct {
-	Name     string   `json:"name"`
-	In       string   `json:"in"` // query | formData | header
-	Required bool     `json:"required"`
-	IsArray  bool     `json:"isArray"`
-	CF       string   `json:"cf"`
-	Ty       string   `json:"ty"` // str | int32 | int64 | bool
-	MinLen   *int     `json:"minLen"`
-	MaxLen   *int     `json:"maxLen"`
-	EnumS    []string `json:"enumS"`
-	MinI     *int64   `json:"minI"`
-	ExMin    bool     `json:"exMin"`
-	MaxI     *int64   `json:"maxI"`
-	ExMax    bool     `json:"exMax"`
-	EnumI    []int64  `json:"enumI"`
-	MinItems *int     `json:"minItems"`
-	MaxItems *int     `json:"maxItems"`
-	Unique   bool     `json:"unique"`
+	Name       string   `json:"name"`
+	In         string   `json:"in"` // query | formData | header
+	Required   bool     `json:"required"`
+	IsArray    bool     `json:"isArray"`
+	CF         string   `json:"cf"`
+	Ty         string   `json:"ty"` // str | int32 | int64 | bool
+	MinLen     *int     `json:"minLen"`
+	MaxLen     *int     `json:"maxLen"`
+	EnumS      []string `json:"enumS"`
+	MinI       *int64   `json:"minI"`
+	ExMin      bool     `json:"exMin"`
+	MaxI       *int64   `json:"maxI"`
+	ExMax      bool     `json:"exMax"`
+	EnumI      []int64  `json:"enumI"`
+	MinItems   *int     `json:"minItems"`
+	MaxItems   *int     `json:"maxItems"`
+	Unique     bool     `json:"unique"`
+	AllowEmpty bool     `json:"allowEmpty"`
 }
 
 func ip(v int) *int       { return &v }
@@ -83,6 +84,9 @@ func (p *PSpecJ) render() map[string]interface{} {
 	if p.Required {
 		m["required"] = true
 	}
+	if p.AllowEmpty {
+		m["allowEmptyValue"] = true
+	}
 	if p.IsArray {
 		m["type"] = "array"
 		m["items"] = p.scalarSchema()
@@ -108,6 +112,9 @@ func (p *PSpecJ) render() map[string]interface{} {
 
 func genPSpec(r *rng.R, name, in string) *PSpecJ {
 	p := &PSpecJ{Name: name, In: in, Required: r.Chance(1, 3), Ty: r.Pick([]string{"str", "str", "int64", "int32", "bool"})}
+	if (in == "query" || in == "formData") && r.Chance(1, 4) {
+		p.AllowEmpty = true
+	}
 	if r.Chance(2, 5) && p.Ty != "bool" {
 		p.IsArray = true
 		p.CF = r.Pick([]string{"", "csv", "pipes", "ssv", "tsv"})
